@@ -126,6 +126,10 @@ pub async fn run(input: &str) -> Vec<String> {
     let mut interval = 10u64;
     let mut started = false;
     let mut out = Vec::new();
+    // the subscription actors' turn log (current-thread runtime: one thread-local log)
+    deltio::verif::set_logging(true);
+    let _ = deltio::verif::take_log();
+    let mut turnlog: Vec<String> = Vec::new();
     for line in input.lines() {
         let toks = line.split_whitespace().collect::<Vec<_>>();
         if toks.is_empty() || toks[0].starts_with('#') {
@@ -186,6 +190,19 @@ pub async fn run(input: &str) -> Vec<String> {
                     Ok(p) => format!("ok {}", received_out(&p.get_ref().received_messages)),
                     Err(e) => code_name(e.code()).into(),
                 }
+            }
+            // turnlog: every subscription-actor event so far that the dispatch correspondence needs
+            "turnlog" => {
+                turnlog.extend(deltio::verif::take_log());
+                let keep = turnlog
+                    .iter()
+                    .filter(|l| {
+                        let t = l.split(' ').collect::<Vec<_>>();
+                        t.len() > 2 && t[0] == "sub" && matches!(t[2], "new" | "pull" | "ack" | "modify")
+                    })
+                    .cloned()
+                    .collect::<Vec<_>>();
+                join(&keep, " ~~ ")
             }
             "wait" => {
                 tokio::time::sleep(Duration::from_millis(toks[1].parse().unwrap())).await;
